@@ -68,6 +68,10 @@ fn dispatch(args: &[String]) -> i32 {
             chain_bench(args.get(1).and_then(|s| s.parse().ok()).unwrap_or(20));
             0
         }
+        Some("psl-bench") => {
+            psl_bench(args.get(1).and_then(|s| s.parse().ok()).unwrap_or(1_000_000), args.get(2).and_then(|s| s.parse().ok()).unwrap_or(1));
+            0
+        }
         _ => {
             eprintln!("usage: rsdd-sim check|replay|run-one|hashes|selftest ...");
             2
@@ -714,6 +718,33 @@ fn cmd_selftest(args: &[String]) -> i32 {
 }
 
 /// diagnostic: how long does rsdd take to build OR_i (x_p(2i) & x_p(2i+1)) along the order, top-down, under a shuffled order?
+/// diagnostic (not a check): fill the unique table with `n` random BDD-shaped nodes at its shipped capacity and
+/// growth policy; in this profile (overflow checks on) a probe length beyond the u8 `psl` field panics
+pub fn psl_bench(n: usize, seed: u64) {
+    use rsdd::repr::{BddNode, BddPtr, VarLabel};
+    use rsdd::verif::{BackedRobinhoodTable, UniqueTable};
+    let tbl: *mut BackedRobinhoodTable<'static, BddNode<'static>> = Box::leak(Box::new(BackedRobinhoodTable::<BddNode>::new()));
+    let mut r = rng::Rng::new(seed);
+    let mut nodes: Vec<&'static BddNode<'static>> = Vec::with_capacity(n);
+    let t0 = std::time::Instant::now();
+    for i in 0..n {
+        let (lo, hi) = if i < 2 {
+            (BddPtr::PtrFalse, BddPtr::PtrTrue)
+        } else {
+            let a = nodes[r.below(i as u64) as usize];
+            let b = nodes[r.below(i as u64) as usize];
+            (if r.bool() { BddPtr::Reg(a) } else { BddPtr::Compl(a) }, BddPtr::Reg(b))
+        };
+        let nd = BddNode::new(VarLabel::new(r.below(64)), lo, hi);
+        let p: &'static BddNode<'static> = unsafe { (*tbl).get_or_insert(nd) };
+        nodes.push(p);
+        if i > 0 && i % 5_000_000 == 0 {
+            println!("{i} nodes, {:?}", t0.elapsed());
+        }
+    }
+    println!("{n} insertions, {} distinct nodes, {:?}: no probe length beyond 255", unsafe { (*tbl).num_nodes() }, t0.elapsed());
+}
+
 pub fn chain_bench(n: usize) {
     use rsdd::builder::bdd::RobddBuilder;
     use rsdd::builder::cache::AllIteTable;
